@@ -194,3 +194,13 @@ def explore(run: Callable[[Chooser], Any], max_paths: int = 20000) -> List[Tuple
             return results
         script = [c for (_, c, _) in trace[:-1]] + [trace[-1][1] + 1]
     raise Unsupported(f"more than {max_paths} paths")
+
+
+def one_shot(items) -> "Obj":
+    """An iterator object (generator, map/filter/zip/reversed/enumerate object, lark's scan_values / iter_subtrees ...):
+    it can be consumed once; a second iteration finds it exhausted."""
+    return Obj("builtins.iterator", {"items": list(items), "pos": 0})
+
+
+def is_one_shot(v) -> bool:
+    return isinstance(v, Obj) and v.cls == "builtins.iterator"
